@@ -128,4 +128,13 @@ PROPS["C09"] = dict(engines=["akafka"], design="5/C09",
     note="Trusted: TLC; harness/fake_ck.py (in-memory implementation of the client calls the source makes); a consumer that holds the batch's references until the driver "
          "lets it finish (consumers reached only through synchronous hand-offs fall under known finding F06-emit, not C09).")
 
+PROPS["C20"] = dict(engines=["adask"], design="5/C20",
+    technique="TLA+ spec DaskFlow (per-call scatter/gather coroutines, tasks finishing in any order; TLC exhaustive incl. liveness) + trace validation of real scatter()...gather() pipelines on an in-process distributed cluster with gated task completion",
+    text="TLC checks ExactlyOnce, Lossless, SameOrder, CbSafe, RcBalance and the liveness property AllDelivered for all task completion orders, for producers that await their emits "
+         "and for buffered segments; for fire-and-forget producers the loss of order is exhibited on purpose (known finding F18); real pipelines (map, map+buffer, map.map, "
+         "accumulate, starmap between scatter and gather) are run with every forced completion order and validated event by event, sink values being mapped to element ids "
+         "through the results of the same segment run locally.",
+    note="Trusted: TLC; the in-process distributed cluster (real event loop: event-gated, no wall-clock assertions); gates implemented with threading.Event inside the submitted functions; "
+         "3-4 elements per scenario.")
+
 # violations found by an engine shared between properties are attributed by v['property']
